@@ -33,7 +33,7 @@ def gen_cases(tier, rng):
 
 def split_impl(c, out):
     """popen= (relay-push sessions still open at the end) is observed on the implementation only"""
-    return "|".join(p for p in out.split("|") if not p.startswith(("hook=", "popen="))) or "-"
+    return "|".join(p for p in out.split("|") if not p.startswith("popen=")) or "-"
 
 
 def nontrivial(c, out):
